@@ -20,17 +20,32 @@ def _imports():
 
 
 class Member(object):
-  """A server-set member as the balancers see it."""
+  """A server-set member as the balancers see it.  When the world's provider names an endpoint
+  (zk://...#name), the endpoint the harness talks about is the member's additional endpoint of
+  that name and the service endpoint is a decoy nobody must connect to."""
+  named = None
+
   def __init__(self, ep):
-    self.service_endpoint = ep
-    self.additional_endpoints = {}
+    if Member.named:
+      if hasattr(ep, '_replace'):            # named tuple
+        decoy = ep._replace(host='main-' + ep.host)
+      elif isinstance(ep, tuple):
+        decoy = ('main-' + ep[0], ep[1])
+      else:                                  # scales' Endpoint class
+        decoy = type(ep)('main-' + ep.host, ep.port)
+      self.service_endpoint = decoy
+      self.additional_endpoints = {Member.named: ep, 'admin': decoy}
+    else:
+      self.service_endpoint = ep
+      self.additional_endpoints = {}
 
   def __repr__(self):
     return 'Member(%s)' % self.service_endpoint
 
 
 def make_world(env, rng, kind, lb_params=None, open_delay=None, get_servers_delay=0.0,
-               get_servers_failures=0, get_servers_dups=0):
+               get_servers_failures=0, get_servers_dups=0, endpoint_name=None):
+  Member.named = endpoint_name
   I = _imports()
   AsyncResult, ClientMessageSink = I['AsyncResult'], I['ClientMessageSink']
   MethodReturnMessage, FailedFastError = I['MethodReturnMessage'], I['FailedFastError']
@@ -160,6 +175,8 @@ def make_world(env, rng, kind, lb_params=None, open_delay=None, get_servers_dela
   class Scripted(ServerSetProvider):
     """Truth server set.  Mutations enqueue notifications that one notifier
     greenlet delivers serially (like the ZooKeeper provider's worker)."""
+    endpoint_name = Member.named       # class attribute overriding the base property
+
     def __init__(self):
       self.truth = {}       # ep -> Member
       self.on_join = self.on_leave = None
